@@ -47,6 +47,7 @@ type SchedCase struct {
 	SitePct  uint32   `json:"site_pct"`
 	SiteSalt uint32   `json:"site_salt"`
 	PCT      []int    `json:"pct,omitempty"`
+	Preempt  []int    `json:"preempt,omitempty"` // pre-emption points inside callee code, in 1/100000 of the statements of the reference run
 }
 
 func genSched(rt *rapid.T) SchedCase {
@@ -56,6 +57,7 @@ func genSched(rt *rapid.T) SchedCase {
 	s.Seed = rapid.Uint64Range(0, 1<<40).Draw(rt, "schedseed")
 	s.SitePct = []uint32{100, 30, 10, 0}[rapid.IntRange(0, 3).Draw(rt, "sitepct")]
 	s.SiteSalt = rapid.Uint32Range(0, 1000).Draw(rt, "sitesalt")
+	s.Preempt = rapid.SliceOfN(rapid.IntRange(0, 99999), 0, 3).Draw(rt, "preempt")
 	if s.Strategy == 3 {
 		n := rapid.IntRange(1, 3).Draw(rt, "npct")
 		for i := 0; i < n; i++ {
@@ -65,8 +67,19 @@ func genSched(rt *rapid.T) SchedCase {
 	return s
 }
 
-func (s SchedCase) Config(maxSteps int) sched.Config {
-	return sched.Config{Strategy: sched.Strategy(s.Strategy), Choices: s.Choices, SchedSeed: s.Seed, SitePct: s.SitePct, SiteSalt: s.SiteSalt,
+// nominalStmts stands for the statement count of a run when no reference run has measured it.
+const nominalStmts = 20000
+
+func (s SchedCase) Config(maxSteps int) sched.Config { return s.ConfigT(maxSteps, nominalStmts) }
+
+// ConfigT scales the pre-emption points to a run of about total statements.
+func (s SchedCase) ConfigT(maxSteps, total int) sched.Config {
+	var pre []int
+	for _, f := range s.Preempt {
+		pre = append(pre, 1+int(int64(f)*int64(total)/100000))
+	}
+	sort.Ints(pre)
+	return sched.Config{Preempt: pre, Strategy: sched.Strategy(s.Strategy), Choices: s.Choices, SchedSeed: s.Seed, SitePct: s.SitePct, SiteSalt: s.SiteSalt,
 		PCTChanges: s.PCT, MaxSteps: maxSteps}
 }
 
